@@ -1,6 +1,7 @@
 package props
 
 import (
+	"encoding/json"
 	"fmt"
 	"math"
 	"math/rand"
@@ -270,12 +271,41 @@ func c15Run(c *mon.Ctx) {
 	c.CountN("near_antipode_pairs", int64(nearSing))
 }
 
+func c15Replay(kind string, raw json.RawMessage) (bool, string) {
+	var cs c15Case
+	if err := json.Unmarshal(raw, &cs); err != nil {
+		return false, "recorded case is not structured (it contained NaN): " + string(raw)
+	}
+	a := cs.Args
+	switch {
+	case cs.What == "DestinationPoint" || cs.What == "BearingTo":
+		if len(a) != 4 {
+			break
+		}
+		dl, dn := geo.DestinationPoint(a[0], a[1], a[2], a[3])
+		back := sphere.Dist(a[0], a[1], dl, dn)
+		bad := math.IsNaN(dl) || math.IsNaN(dn) || dl < -90 || dl > 90 || dn < -180 || dn > 180 || math.Abs(back-a[2]) > tolD(a[2])
+		return bad, fmt.Sprintf("DestinationPoint=(%v,%v) distance back %v want %v (tolerance %g)", dl, dn, back, a[2], tolD(a[2]))
+	case len(a) == 4:
+		d1, d2 := geo.DistanceTo(a[0], a[1], a[2], a[3]), geo.DistanceTo(a[2], a[3], a[0], a[1])
+		ref := sphere.Dist(a[0], a[1], a[2], a[3])
+		bad := math.IsNaN(d1) || d1 != d2 || d1 < 0 || d1 > piR*(1+1e-15)
+		return bad, fmt.Sprintf("DistanceTo=%v / %v reference %v", d1, d2, ref)
+	case len(a) == 1:
+		h := geo.DistanceToHaversine(a[0])
+		back := geo.DistanceFromHaversine(h)
+		return math.IsNaN(back) || math.Abs(back-a[0]) > math.Max(tolD(a[0]), 0.5), fmt.Sprintf("haversine %v back %v", h, back)
+	}
+	return false, "case kind not replayable: " + cs.What
+}
+
 func init() {
 	mon.Register(&mon.Prop{
 		ID:          "C15",
 		Rule:        "random tuples (location A, location B, distance, bearing) with locations biased to the poles (90-10^-k), the antimeridian, antipodal and nearly coincident pairs, distances from 0 and millimetres to just below half the circumference, cardinal and random bearings; judged against the 3-vector reference (error bounded by a 200-bit residual check on a sample). Non-trivial = distinct tuple near a singular place (within 1 m of the antipode, below 1 mm, within 0.01 degree of a pole, destination within 0.001 degree of a pole).",
 		Assumptions: []string{"reference: internal/sphere (atan2 of cross and dot products), accurate to < 10^-5 m (checked)", "tolerances as the statement gives them: max(1 mm, 1e-6 d); near the antipode the distance-from-haversine resolution (~0.13-0.3 m) is allowed for, as the statement's 'converts without loss' cannot be finer than one ulp of the haversine", "known finding F19 (destination within ~10 m of a pole) is matched with a magnitude bound of 0.5 m"},
 		Run:         c15Run,
+		Replay:      c15Replay,
 		MustSee:     []string{"bearing_checked", "monotone_checked", "semicircle_checked", "object_distance_checked", "reference_residual_checked", "near_antipode_pairs"},
 	})
 }
